@@ -1063,6 +1063,11 @@ class Engine:
             return
         m = self.lib.method(self, o, attr)
         if m is None:
+            if k == 'opaque' and not st.spec and o.ty.args[0] not in ('object', 'DriverAttr'):
+                # a library object whose method has no contract: out of the subset (treating it
+                # as an AttributeError would silently cut off the paths behind the call)
+                raise EngineError('no library contract for %s.%s (line %d)'
+                                  % (o.ty.args[0], attr, line))
             yield st, Raise('AttributeError', (), line)
             return
         yield st, m
@@ -1837,6 +1842,7 @@ class Engine:
                         s.lineno, pat, reason)
                     if note not in self.dropped:
                         self.dropped.append(note)
+                    self.check_hits.add(('abstract', pat))
                     return iter([(st, None)])
         if c is not None and c.cuts_ and not st.spec and id(s) not in self._in_cut:
             seg = self._stmt_text(s)
@@ -2560,6 +2566,10 @@ class Engine:
                 if pat not in self.check_hits:
                     raise EngineError('contract drift: no statement of %s matches the ghost '
                                       'program point %r' % (qualname, pat))
+            for pat, _ in c.abstract_:
+                if ('abstract', pat) not in self.check_hits:
+                    raise EngineError('contract drift: no statement of %s matches the abstract '
+                                      'region %r' % (qualname, pat))
             for pat, cl in c.checks_:
                 if pat not in self.check_hits:
                     raise EngineError('contract drift: no statement of %s matches the program '
